@@ -17,9 +17,9 @@ EXPLANATION = (
     'exporter -> bus -> caller (four encode/decode hops) and must run the method once with equal arguments and complete with '
     'the equal value, or with a RemoteError mirroring the raised exception. sched: one or two concurrent calls under every '
     'delivery schedule up to the bound (which link delivers next, whole or cut after 1 / 16 bytes), selector-driven.')
-BOUNDS = {'quick': 'values: 2 clients, 1 call, 9 method shapes (incl. one member name on two interfaces) x 2 proxy kinds; sched: 2-3 clients, 1-2 concurrent calls, first 4 scheduling decisions free (6 options each)',
-          'thorough': 'sched: first 5 scheduling decisions free'}
-ASSUMPTIONS = ['"any number of clients / every interleaving" is cut to 2-3 clients and the first 4-5 scheduling decisions (later ones: first pending link, whole)',
+BOUNDS = {'quick': 'values: 2 clients, 1 call, 9 method shapes (incl. one member name on two interfaces) x 2 proxy kinds; sched: 2-3 clients, 1-2 concurrent calls, first 5 scheduling decisions free (6 options each)',
+          'thorough': 'sched: first 6 scheduling decisions free'}
+ASSUMPTIONS = ['"any number of clients / every interleaving" is cut to 2-3 clients and the first 5-6 scheduling decisions (later ones: first pending link, whole)',
                'authentication is skipped on both sides (C06/C07)', 'argument values beyond int32 / byte / one character are covered per hop by C01-C03']
 STUBS = ['in-memory pipes between FakeTransports', 'task.Clock as reactor']
 
@@ -31,7 +31,7 @@ def obligations(tier):
             obs.append(Ob('values:%s:%s' % (kind, 'introspected' if intro else 'explicit'), 'values',
                           {'kind': kind, 'intro': intro}, timeout=900, path_timeout=120, twin=True, functions=FUNCS,
                           bounds='arguments symbolic; default delivery schedule'))
-    S = 4 if tier == 'quick' else 5
+    S = 5 if tier == 'quick' else 6
     for scen in ('one', 'two-same', 'two-callers'):
         for first in range(6):
             obs.append(Ob('sched:%s:first%d' % (scen, first), 'sched', {'scen': scen, 'S': S, 'first': first}, timeout=1800,
